@@ -162,8 +162,8 @@ MUTANTS = [
      "            if transaction is not self._transaction:\n                return\n\n            try:\n                self._abort()",
      "            if self._transaction is None:\n                return\n\n            try:\n                self._abort()"),
     ('C06', 'undo-always-copies', FS,
-     "                        # the data being undone.  We can't just copy:\n                        copy = False",
-     "                        # the data being undone.  We can't just copy:\n                        copy = True"),
+     "                        # files).  We can't just copy:\n                        copy = False",
+     "                        # files).  We can't just copy:\n                        copy = True"),
     ('C06', 'undo-creation-writes-prev', FS,
      "            # (possibly because some of them were undos).\n            return \"\", 0, ipos",
      "            # (possibly because some of them were undos).\n            return \"\", ipos, ipos"),
